@@ -38,6 +38,7 @@ TreeVal(r) ==
     [] n = "vmulti" -> VMulti(<<"1", "x", " 2.5 ">>)
     [] n = "vm2" -> VMulti(<<"", "7">>)
     [] n = "vone" -> VMulti(<<"0">>)          \* a leaf-list with a single entry
+    [] n = "vnil" -> VMulti(<<"">>)           \* a leaf-list whose single entry is the empty string
     [] n = "vempty" -> VS("")
     [] n = "vnum" -> VS("12")
     [] n = "vneg" -> VS(" -1.5 ")
